@@ -23,11 +23,11 @@ type RK int
 
 const (
 	// DHCPv4
-	ROffer1   RK = iota // OFFER from server 1, address A
-	ROffer2             // OFFER from server 2, address B
-	ROfferNoSID         // OFFER without server identifier
-	RAck1               // ACK from server 1
-	RAck2               // ACK from server 2
+	ROffer1     RK = iota // OFFER from server 1, address A
+	ROffer2               // OFFER from server 2, address B
+	ROfferNoSID           // OFFER without server identifier
+	RAck1                 // ACK from server 1
+	RAck2                 // ACK from server 2
 	RNak1
 	RNak2
 	RAckNoSID
@@ -90,13 +90,13 @@ type exRun struct {
 	txs     []exTx
 	replies []replyMeta
 	// results
-	err       error
-	offerSer  int
-	ackSer    int
-	nakSer    int
-	respSer   int
-	respType  int
-	done      bool
+	err      error
+	offerSer int
+	ackSer   int
+	nakSer   int
+	respSer  int
+	respType int
+	done     bool
 }
 
 type exTx struct {
@@ -420,7 +420,7 @@ func (s *ExScenario) check(run *exRun, ex *vs.Exec) (string, string) {
 			return fail("X1-discover", "first transmission is not a DISCOVER")
 		}
 		d := run.txs[0].v4
-		if !bytes.Equal(d.ClientHWAddr, clientMAC) || run.txs[0].dest != serverAddr.String() || d.OpCode != dhcpv4.OpcodeBootRequest {
+		if !bytes.Equal(d.ClientHWAddr, clientMAC) || d.OpCode != dhcpv4.OpcodeBootRequest {
 			return fail("X1-discover", fmt.Sprintf("DISCOVER has chaddr %v dest %s", d.ClientHWAddr, run.txs[0].dest))
 		}
 		sel := -1
@@ -431,7 +431,7 @@ func (s *ExScenario) check(run *exRun, ex *vs.Exec) (string, string) {
 			}
 		}
 		if sel < 0 {
-			if ec != "noresp" {
+			if ec == "" || ec == "nak" {
 				return fail("X2-no-offer", fmt.Sprintf("no valid OFFER was delivered but Request returned %q", ec))
 			}
 			if len(run.txs) != 1 {
